@@ -10,6 +10,8 @@ REPO = "/repo"
 SCR = "/tmp/scratch"
 OUT = "/verif/seeded"
 NW = int(os.environ.get("NW", "6"))
+MUT = os.environ.get("MUTDIR", "/tmp/mut")      # where the sub-agents left their out/ directories
+OFF = int(os.environ.get("NOFF", "0"))           # offset added to the agent's mutant number (round 2: 3)
 
 
 def sh(cmd, cwd, env=None, timeout=3000):
@@ -25,7 +27,7 @@ def confirm(job):
     wt = "%s/cs-%d" % (SCR, w)
     tgt = "%s/cs-tgt-%d" % (SCR, w)
     env = {"CARGO_TARGET_DIR": tgt}
-    n = m["n"]
+    n = m["n"] + OFF
     res = {"property": prop, "n": n, "summary": m.get("summary"), "why_breaks": m.get("why_breaks"), "needs": m.get("needs")}
     patch = os.path.join(outdir, m["patch"])
     demo = os.path.join(outdir, m["demo"])
@@ -88,8 +90,8 @@ def confirm(job):
 def main():
     os.makedirs(SCR, exist_ok=True)
     jobs = []
-    for p in sorted(glob.glob("/tmp/mut/C*/out/notes.json")):
-        prop = p.split("/")[3]
+    for p in sorted(glob.glob(MUT + "/C*/out/notes.json")):
+        prop = p.split("/")[-3]
         for m in json.load(open(p)):
             jobs.append((prop, m, os.path.dirname(p)))
     only = sys.argv[1:]
@@ -113,14 +115,18 @@ def main():
             try:
                 out.append(confirm(j))
             except Exception as e:
-                out.append({"property": j[1], "n": j[2]["n"], "status": "error: %s" % e})
+                out.append({"property": j[1], "n": j[2]["n"] + OFF, "status": "error: %s" % e})
             print(out[-1]["property"], out[-1]["n"], out[-1]["status"], flush=True)
         return out
     with cf.ThreadPoolExecutor(NW) as ex:
         for r in ex.map(run_bucket, buckets):
             results += r
     results.sort(key=lambda r: (r["property"], r["n"]))
-    json.dump(results, open(os.path.join(OUT, "confirmation.json"), "w"), indent=1)
+    cf_path = os.path.join(OUT, "confirmation.json")
+    old = json.load(open(cf_path)) if os.path.exists(cf_path) else []
+    keys = {(r["property"], r["n"]) for r in results}
+    results_all = sorted([r for r in old if (r["property"], r["n"]) not in keys] + results, key=lambda r: (r["property"], r["n"]))
+    json.dump(results_all, open(cf_path, "w"), indent=1)
     for w in range(NW):
         subprocess.run(["git", "-C", REPO, "worktree", "remove", "--force", "%s/cs-%d" % (SCR, w)], stdout=subprocess.DEVNULL, stderr=subprocess.DEVNULL)
         shutil.rmtree("%s/cs-tgt-%d" % (SCR, w), ignore_errors=True)
